@@ -2,6 +2,7 @@
    Part 1: infrastructure, trace projections, C10 (role), C14 (cancel), C05 (completion). *)
 From Coq Require Import List ZArith NArith Bool Arith Lia.
 From Jade Require Import Base System SystemMonitors.
+From Jade.Gen Require RoundGen.
 Import ListNotations.
 Open Scope N_scope.
 Set Default Timeout 120.
@@ -26,6 +27,14 @@ Ltac split_bools :=
          | H : Bool.eqb _ _ = true |- _ => apply Bool.eqb_prop in H
          | H : N.eqb _ _ = true |- _ => apply N.eqb_eq in H
          end.
+
+(* the two decisions taken from the source (Gen/RoundGen.v), in the form the proofs use *)
+Lemma check_complete_spec a n : RoundGen.check_complete a n = a || n.
+Proof. destruct a, n; reflexivity. Qed.
+Lemma skip_update_spec {A B} u (seen : list A) (placed : list B) same :
+  u || negb (RoundGen.update_needed (negb (isnil seen)) (negb (isnil placed)) false (negb same)) = true ->
+  u = true \/ (seen = [] /\ placed = [] /\ same = true).
+Proof. destruct u; [auto|]. destruct seen, placed, same; cbn; intros H; try discriminate H; auto. Qed.
 
 Lemma acting_some s p r : acting s p = Some r -> holder s = Some r /\ r_pid r = p /\ r_alive r = true.
 Proof.
